@@ -46,6 +46,15 @@ def tweak(world, rng):
         else:
             nodes[e["loc"]] = {"p": e["loc"], "k": "l", "target": b"nowhere"}
         e["dest"] = kind
+        if kind in ("file", "link-file", "link-dangling") and rng.random() < 0.3 and not world["opts"].get("overwrite"):
+            # the entry's Path is recorded with a trailing slash: the existing non-directory is in the way all the same
+            ip = e["tdir"] + b"/info/" + e["name"] + b".trashinfo"
+            if ip in nodes and nodes[ip]["k"] == "f" and b"Path=/ignored" not in nodes[ip]["data"]:
+                import re as _re
+                nodes[ip] = dict(nodes[ip], data=_re.sub(rb"(?m)^(Path=[^\r\n]*)", rb"\1/", nodes[ip]["data"], count=1))
+                e["loc"] = e["loc"] + b"/"
+                e["rec"] = e["rec"] + b"/"
+                e["dest"] = kind + "+slash"
     world["nodes"] = sorted(nodes.values(), key=lambda n: n["p"])
     world["opts"]["path"] = b"/"
     world["opts"].pop("trashDir", None)
